@@ -232,3 +232,15 @@ Example C11_swath_code_ex :
               (combine [false; true; false; true] (chunk_boxes [[3; 3]; [4; 2]]%Z)))
   = COk (mk_slice 3 7, mk_slice 0 7).
 Proof. vm_compute. reflexivity. Qed.
+
+(* ---- round 3 ---- *)
+(* the hypothesis of C11_cache_history_transparent is necessary: a cache in front of a cropping function returns the right
+   answer for every history of requests ONLY IF its key equality never identifies two requests with different answers
+   (a hash / __eq__ that merges near-identical targets makes the second call of [A; B] return A's slices: tied to
+   crop_source_area and to the JSON cache of get_area_slices by the near-identical-target histories of the harness) *)
+Theorem C11_cache_key_sound_necessary : forall (K V : Type) (keq : K -> K -> bool) (f : K -> V) maxsize, maxsize <> Some O ->
+  (forall ks, fst (run keq f maxsize [] ks) = map f ks) -> forall k1 k2, keq k2 k1 = true -> f k2 = f k1.
+Proof. exact @key_sound_necessary. Qed.
+Print Assumptions C11_cache_key_sound_necessary.
+Example C11_cache_stale_ex : fst (run (fun a b => Nat.eqb (a / 10) (b / 10)) (fun k => k)%nat (Some 4%nat) [] [11; 12]%nat) = [11; 11]%nat.
+Proof. reflexivity. Qed.
